@@ -28,6 +28,12 @@ class Packed:
         self.size = size
 
 
+class RInf:
+    """+-infinity constant in REAL mode (only comparisons and selection are supported; all other reals are finite)"""
+    def __init__(self, sign):
+        self.sign = sign
+
+
 class Ptr:
     def __init__(self, obj, off=0, sym=None, stride=0):
         self.obj, self.off, self.sym, self.stride = obj, off, sym, stride
@@ -69,6 +75,9 @@ RNE = z3.RNE()
 class Exec:
     def __init__(self, mod, mode="FP", int_mode="BV", max_paths=512, max_steps=200000):
         self.m = mod
+        self.err_model = (mode == "ERR")
+        if mode == "ERR":
+            mode = "REAL"
         self.mode = mode
         self.int_mode = int_mode
         self.max_paths = max_paths
@@ -83,6 +92,8 @@ class Exec:
         self.trig = {}
         self.sqrt_cache = {}
         self.fresh = 0
+        self.pow_apps = []
+        self.u2r = {}
         self.binfo = {}      # INT mode: expr id -> (known-zero low bits, max significant bits)
         self.cur_pc = None
         self.paths_done = 0
@@ -113,8 +124,11 @@ class Exec:
 
     def fconst(self, v, ty):
         if self.mode == "REAL":
-            if v != v or v in (float("inf"), float("-inf")):
-                raise Inconclusive("non-finite float constant in REAL mode")
+            if v in (float("inf"), float("-inf")):
+                self.assumptions.add("REAL mode: +-infinity constants only flow into comparisons/min/max; every symbolic real is finite")
+                return RInf(1 if v > 0 else -1)
+            if v != v:
+                raise Inconclusive("NaN constant in REAL mode")
             fr = fractions.Fraction(v)
             return z3.RealVal(fr)
         if self.mode == "UF":
@@ -460,6 +474,13 @@ class Exec:
             raise Inconclusive("select between distinct pointers")
         if isinstance(a, Packed) or isinstance(b, Packed):
             raise Inconclusive("select on packed value")
+        if isinstance(a, RInf) or isinstance(b, RInf):
+            cs = z3.simplify(c)
+            if z3.is_true(cs):
+                return a
+            if z3.is_false(cs):
+                return b
+            raise Inconclusive("symbolic selection of an infinite value in REAL mode")
         return z3.If(c, a, b)
 
     def bool_of(self, v):
@@ -473,15 +494,20 @@ class Exec:
 
     # ---------- float ops
     def fbin(self, op, a, b, ty):
+        if isinstance(a, RInf) or isinstance(b, RInf):
+            raise Inconclusive("arithmetic on an infinite value in REAL mode")
         if self.mode == "REAL":
-            if op == "fadd":
-                return a + b
-            if op == "fsub":
-                return a - b
-            if op == "fmul":
-                return a * b
-            if op == "fdiv":
-                return a / b
+            r = {"fadd": lambda: a + b, "fsub": lambda: a - b, "fmul": lambda: a * b, "fdiv": lambda: a / b}.get(op)
+            if r is not None:
+                r = r()
+                if self.err_model:
+                    # standard model of IEEE-754 round-to-nearest in the normal range: fl(x o y) = (x o y)(1+d), |d| <= 2^-24 (2^-53)
+                    u = fractions.Fraction(1, 2 ** 24) if ty.kind == "float" else fractions.Fraction(1, 2 ** 53)
+                    d = self.new("delta", z3.RealSort())
+                    self.side.append(z3.And(d <= z3.RealVal(u), d >= -z3.RealVal(u)))
+                    self.assumptions.add("ERR mode: each float op is exact*(1+d), |d|<=2^-24 (float) / 2^-53 (double), fresh d per instruction; results assumed in the normal range")
+                    r = r * (1 + d)
+                return r
         elif self.mode == "UF":
             return self.uf(op + "_" + ty.kind, [a, b], commutative=op in ("fadd", "fmul"))
         else:
@@ -496,6 +522,12 @@ class Exec:
         raise Inconclusive("float op %s" % op)
 
     def fcmp(self, pred, a, b):
+        if isinstance(a, RInf) or isinstance(b, RInf):
+            sa = a.sign * 2 if isinstance(a, RInf) else 0
+            sb = b.sign * 2 if isinstance(b, RInf) else 0
+            p = pred[1:] if pred not in ("ord", "uno") else pred
+            r = {"eq": sa == sb, "ne": sa != sb, "lt": sa < sb, "le": sa <= sb, "gt": sa > sb, "ge": sa >= sb, "ord": True, "uno": False}[p]
+            return z3.BoolVal(r)
         if self.mode == "REAL":
             m = {"oeq": a == b, "ueq": a == b, "one": a != b, "une": a != b, "olt": a < b, "ult": a < b, "ole": a <= b, "ule": a <= b,
                  "ogt": a > b, "ugt": a > b, "oge": a >= b, "uge": a >= b, "ord": z3.BoolVal(True), "uno": z3.BoolVal(False)}
@@ -652,6 +684,13 @@ class Exec:
                 c = self.concrete_int(b)
                 if c is not None and (c + 1) & c == 0:
                     return a % (c + 1)
+            if op == "xor":
+                c = self.concrete_int(b)
+                if c == M - 1:
+                    return (M - 1) - a
+            if op in ("and", "or", "xor"):
+                ba, bb = z3.Int2BV(a, bits), z3.Int2BV(b, bits)
+                return z3.BV2Int({"and": ba & bb, "or": ba | bb, "xor": ba ^ bb}[op])
             raise Inconclusive("INT-mode op %s" % op)
         # bit-vector
         if op in ("add", "sub", "mul"):
@@ -789,6 +828,25 @@ class Exec:
             return z3.fpFPToFP(RNE, v, self.fsort(dt))
         if op in ("sitofp", "uitofp"):
             if self.mode == "REAL":
+                if z3.is_bv(v) and not z3.is_bv_value(v):
+                    # over-approximation: the converted word is an arbitrary real in the type's range (integrality dropped)
+                    k = (v.get_id(), op)
+                    if k not in self.u2r:
+                        r = self.new("word", z3.RealSort())
+                        bits = v.size()
+                        hi = (1 << bits) - 1
+                        try:
+                            if v.decl().kind() in (z3.Z3_OP_BUREM, z3.Z3_OP_BUREM_I) and z3.is_bv_value(v.arg(1)) and v.arg(1).as_long() > 0:
+                                hi = v.arg(1).as_long() - 1
+                        except Exception:
+                            pass
+                        if op == "uitofp":
+                            self.side.append(z3.And(r >= 0, r <= hi))
+                        else:
+                            self.side.append(z3.And(r >= -(1 << (bits - 1)), r <= (1 << (bits - 1)) - 1))
+                        self.u2r[k] = r
+                        self.assumptions.add("REAL mode: int->float of a symbolic machine word is an arbitrary real within the word's range (over-approximation)")
+                    return self.u2r[k]
                 if z3.is_bv(v):
                     return z3.ToReal(z3.BV2Int(v, is_signed=(op == "sitofp")))
                 if op == "sitofp":
@@ -1121,7 +1179,19 @@ class Exec:
                 s = self.fsort(ty)
                 self.ufs[key] = z3.Function(name, s, s, s)
                 self.assumptions.add("%s uninterpreted" % name)
-            return self.ufs[key](*args)
+            r = self.ufs[key](*args)
+            if name in ("powf", "pow") and self.mode == "FP":
+                a, e = args
+                zero, one = z3.FPVal(0.0, self.fsort(ty)), z3.FPVal(1.0, self.fsort(ty))
+                self.side.append(z3.Implies(z3.And(z3.fpIsZero(a), z3.fpGT(e, zero)), z3.fpEQ(r, zero)))
+                self.side.append(z3.Implies(z3.fpEQ(a, one), z3.fpEQ(r, one)))
+                self.side.append(z3.Implies(z3.fpGEQ(a, zero), z3.And(z3.fpGEQ(r, zero), z3.Not(z3.fpIsNaN(r)))))
+                for (a2, e2, r2) in self.pow_apps:
+                    self.side.append(z3.Implies(z3.And(z3.fpEQ(e, e2), z3.fpGT(e, zero), z3.fpGEQ(a, zero), z3.fpLEQ(a, a2)), z3.fpLEQ(r, r2)))
+                    self.side.append(z3.Implies(z3.And(z3.fpEQ(e, e2), z3.fpGT(e, zero), z3.fpGEQ(a2, zero), z3.fpLEQ(a2, a)), z3.fpLEQ(r2, r)))
+                self.pow_apps.append((a, e, r))
+                self.assumptions.add("powf contract: pow(+-0,e>0)=0, pow(1,e)=1, non-negative and monotone in the base on [0,inf) for a fixed positive exponent")
+            return r
         g = self.m.funcs.get(name)
         if g is None or g.is_decl:
             raise Inconclusive("call to external %s" % name)
@@ -1188,6 +1258,9 @@ class Exec:
             return self.fun1(n1, args[0], ty)
         if n1 in ("minnum", "maxnum"):
             a, b = args
+            if isinstance(a, RInf) or isinstance(b, RInf):
+                lt = self.fcmp("olt", a, b)
+                return self.ite(lt if n1 == "minnum" else z3.Not(lt), a, b)
             if self.mode == "REAL":
                 return z3.If(a < b, a, b) if n1 == "minnum" else z3.If(a > b, a, b)
             if self.mode == "FP":
